@@ -421,6 +421,23 @@ pub fn for_programs(
     }
 }
 
+/// programs about the first / last character of the members (see gen::reprog::firstchar_program)
+pub fn for_firstchar_programs(p: &Params, rep: &mut Report, count: u64, mut f: impl FnMut(&Program, u64, &mut Report)) {
+    let mut rng = p.rng(0x4643);
+    for _ in 0..count {
+        let prog = firstchar_program(&mut rng);
+        let seed = rng.next();
+        rep.inc("first_character_programs");
+        if let Err(msg) = guard(|| f(&prog, seed, rep)) {
+            if panic_in_harness(&msg) {
+                rep.harness_error(format!("monitor panicked: {}", msg));
+            } else {
+                rep.violation("panic", "panic-unguarded", format!("crate panicked outside a guarded call: {}", msg), KIND_MGR, &prog.to_text(), seed);
+            }
+        }
+    }
+}
+
 struct Restore(u64);
 impl Drop for Restore {
     fn drop(&mut self) {
